@@ -54,7 +54,7 @@ int main() {
             Vector fy0v(p.m); for (int j=0;j<p.m;++j) fy0v[j] = p.eval(j, &y0[0]);
             calls.clear();
             std::vector<double> est;   // parameter-major: for i, for j
-            if (io[1] == 'S') { Real d; if (with) dd.calcDerivative(y0[0], fy0v[0], d, meth); else d = dd.calcDerivative(y0[0], meth); est.push_back(d); }
+            if (io[1] == 'S') { Real d = 12345.678; /* sentinel: stays if the library never stores the result */ if (with) dd.calcDerivative(y0[0], fy0v[0], d, meth); else d = dd.calcDerivative(y0[0], meth); est.push_back(d); }
             else if (io[1] == 'G') { Vector g; if (with) dd.calcGradient(y0v, fy0v[0], g, meth); else g = dd.calcGradient(y0v, meth);
                 for (int i=0;i<g.size();++i) est.push_back(g[i]); }
             else { Matrix J; if (with) dd.calcJacobian(y0v, fy0v, J, meth); else J = dd.calcJacobian(y0v, meth);
